@@ -67,10 +67,14 @@ CODE_SWEEP = (
 )
 
 
+QUICK_BUDGET = {"cases": 300, "deadline_s": 110, "case_timeout_s": 150, "floors": {"rows_checked": 400, "codes_covered_events": 2 * len(CODE_SWEEP), "sacct_batches_checked": 2, "noacct_checked": 10, "pool_rows": 6}}
+THOROUGH_FACTOR = 24  # thorough = the same workload with 24x the cases (floors scale along)
+
+
 def budget(tier):
-    if tier == "thorough":
-        return {"cases": 2400, "deadline_s": 900, "case_timeout_s": 240, "floors": {"rows_checked": 3500, "codes_covered_events": 500, "sacct_batches_checked": 30, "noacct_checked": 100, "pool_rows": 60}}
-    return {"cases": 300, "deadline_s": 110, "case_timeout_s": 150, "floors": {"rows_checked": 400, "codes_covered_events": 2 * len(CODE_SWEEP), "sacct_batches_checked": 2, "noacct_checked": 10, "pool_rows": 6}}
+    from ..core import scaled_budget
+
+    return scaled_budget(QUICK_BUDGET, tier, THOROUGH_FACTOR, noscale=('codes_covered_events', 'sacct_batches_checked', 'noacct_checked', 'pool_rows'))
 
 
 def gen_case(rng, idx, tier):
